@@ -147,6 +147,22 @@ pub fn lib<R>(f: impl FnOnce() -> R) -> Option<R> {
     r.ok()
 }
 
+/// `lib(f)`, but a panic of the library call becomes the observation `R_PANIC` of the current
+/// step (the executor observes, it never assumes that a constructor or `clone` cannot panic)
+#[macro_export]
+macro_rules! lib_or_panic {
+    ($o:ident, $e:expr) => {
+        match $crate::core::lib($e) {
+            Some(x) => x,
+            None => {
+                $o.r = vec![$crate::core::R_PANIC];
+                $crate::core::end_step(&mut $o);
+                return $o;
+            }
+        }
+    };
+}
+
 pub fn begin_step() {
     WAKES.with(|w| w.borrow_mut().clear());
     VALS.with(|w| w.borrow_mut().clear());
@@ -246,7 +262,12 @@ pub trait Exec {
 pub static TICKET: AtomicU64 = AtomicU64::new(0);
 
 pub fn silence_panics() {
-    std::panic::set_hook(Box::new(|_| {}));
+    if std::env::var_os("VERIF_HARNESS_PANICS").is_some() {
+        // diagnosis: print where panics come from (they are still caught where expected)
+        std::panic::set_hook(Box::new(|i| eprintln!("panic: {}", i)));
+    } else {
+        std::panic::set_hook(Box::new(|_| {}));
+    }
 }
 
 // ---------------------------------------------------------------------------
